@@ -91,6 +91,7 @@ func (f *Fam) c09Grid(after Op) {
 			{"wrong-secret", BasicAuth("I", "nope"), "", false},
 			{"other-clients-secret", BasicAuth("I", "secret-A"), "", false},
 			{"unknown-client", BasicAuth("nobody", "secret-I"), "", false},
+			{"public-client-id-with-some-secret", BasicAuth("P", "anything-at-all"), "", false},
 			{"none", Auth{Mode: "omit"}, "", false},
 			{"post-body-only", Auth{Mode: "post", ID: "I", Secret: "secret-I"}, "", false},
 			{"bearer-same-token", Auth{Mode: "omit"}, t.Val, false},
